@@ -23,7 +23,7 @@ FXP_FUNCS = ['mean', 'median', 'median_low', 'median_high', 'mode', 'variance', 
 
 
 def shards(tier, seed):
-    k = 1 if tier == 'quick' else 8
+    k = 3 if tier == 'quick' else 8
     out = [{'name': f'm1-{tp}-{j}', 'kind': 'm1', 'type': tp, 'cases': 70 * k} for tp in ('int', 'fxp') for j in range(4)]
     for c in [(2, 0, False), (3, 1, False), (3, 1, True)]:
         out.append({'name': config_name(c), 'kind': 'sim', 'cfg': list(c), 'cases': 10 * k})
